@@ -67,6 +67,9 @@ def main():
                                    stdout=subprocess.PIPE, stderr=subprocess.STDOUT, text=True, env=env, cwd=VERIF)
                 clauses = sorted({ln.split("clause=")[1].strip() for ln in c.stdout.splitlines() if ln.startswith("VIOLATION") and "clause=" in ln})
                 res[p] = {"exit": c.returncode, "clauses": clauses}
+                if c.returncode not in (0, 1):
+                    res[p]["tail"] = c.stdout[-1500:]
+                    print("MACHINERY", name, p, c.stdout[-1500:])
             shutil.rmtree(os.path.join(VERIF, "out", "selftest-" + name), ignore_errors=True)
             rows.append((name, meta, tests + ("; " + demo if demo else ""), res, time.time() - t0))
         finally:
